@@ -76,6 +76,7 @@ class Evaluator:
     def __init__(self, prog: Program):
         self.prog = prog
         self.entry = prog.func("core", "literal_value")
+        self._pa: Dict = {}
         # functions of the evaluator: reachable from the entry through repository calls inside core, minus analysers
         self.members: List[Func] = []
         todo = [self.entry]
@@ -90,28 +91,93 @@ class Evaluator:
                 r = prog.resolve_call(c.func, f.mod, f)
                 if r and r[0] == "fn" and r[1].mod.name == "core" and r[1].name.lstrip("_").startswith("literal_value"):
                     todo.append(r[1])
+        # ... plus every helper reachable from them that itself performs a primitive (a builtin / method / operator-table
+        # call on evaluated values), whatever its name: moving a primitive into a helper must not hide it
+        todo = list(self.members)
+        reach = set(seen)
+        while todo:
+            f = todo.pop()
+            for c in prog.calls_in(f):
+                r = prog.resolve_call(c.func, f.mod, f)
+                if r and r[0] == "fn" and r[1].key not in reach:
+                    reach.add(r[1].key)
+                    todo.append(r[1])
+                    if any(self.primitive_kind(c2, r[1]) for c2 in prog.calls_in(r[1])):
+                        self.members.append(r[1])
 
     # ------------------------------------------------------------------ primitives
-    def primitive_sites(self) -> List[Tuple[Func, ast.Call, str]]:
-        out = []
-        for f in self.members:
-            for c in self.prog.calls_in(f):
-                kind = self.primitive_kind(c, f)
-                if kind:
-                    out.append((f, c, kind))
-        return out
-
-    def primitive_kind(self, c: ast.Call, f: Func) -> Optional[str]:
+    def callee_forms(self, c: ast.Call, f: Func) -> List[Tuple[ast.AST, ast.AST]]:
+        """(callee expression, node at which its guarding conditions hold).  A callee that is a local variable stands
+        for each expression it is bound to: `function = getattr(builtins, n)` ... `function(*args)`."""
         fn = c.func
+        if isinstance(fn, ast.Name):
+            from .defuse import bindings
+            bs = bindings(f).get(fn.id, [])
+            if bs and fn.id not in f.all_params:
+                return [(v, st) for (st, v) in bs if v is not None and not (isinstance(v, ast.Constant) and v.value is None)]
+        # a builtin looked up and handed to a helper that calls it: helper(getattr(builtins, n), args)
+        passed = [(a, c) for a in c.args if isinstance(a, ast.Call) and isinstance(a.func, ast.Name) and a.func.id == "getattr"
+                  and a.args and norm(a.args[0]) == "builtins"]
+        return [(fn, c)] + passed
+
+    @staticmethod
+    def _kind(prog: Program, fn: ast.AST) -> Optional[str]:
         if isinstance(fn, ast.Subscript) and "COMPARISON_OPERATORS" in norm(fn.value):
             return "operator table call"
         if isinstance(fn, ast.Call) and isinstance(fn.func, ast.Name) and fn.func.id == "getattr" and fn.args:
             if norm(fn.args[0]) == "builtins":
                 return "builtin call"
             return "method call on evaluated receiver"
-        if self.prog.dotted(fn) == "ast.literal_eval":
+        if prog.dotted(fn) == "ast.literal_eval":
             return "ast.literal_eval"
         return None
+
+    def primitive_sites(self) -> List[Tuple[Func, ast.Call, str]]:
+        out = []
+        for f in self.members:
+            for c in self.prog.calls_in(f):
+                for kind in dict.fromkeys(self._kind(self.prog, e) for e, _ in self.callee_forms(c, f)):
+                    if kind:
+                        out.append((f, c, kind))
+        return out
+
+    def primitive_kind(self, c: ast.Call, f: Func) -> Optional[str]:
+        for e, _ in self.callee_forms(c, f):
+            k = self._kind(self.prog, e)
+            if k:
+                return k
+        return None
+
+    def is_core(self, f: Func) -> bool:
+        return f.name.lstrip("_").startswith("literal_value")
+
+    def guard_sites(self, f: Func, c: ast.Call, kind: str) -> List[List[Tuple[Func, ast.AST, ast.AST, Dict[str, str]]]]:
+        """Alternatives (any one suffices); each alternative is a list of (function, node, callee expression, substitution):
+        the conditions under which the primitive is performed must hold at EVERY site of one alternative.  Alternative 1:
+        where the callee expression is formed inside f.  Alternative 2 (helpers only): every call of the helper from the
+        evaluator, with the helper's parameter names standing for the argument texts."""
+        forms = [(e, at) for e, at in self.callee_forms(c, f) if self._kind(self.prog, e) == kind]
+        alts = [[(f, at, e, {}) for e, at in forms]]
+        if not self.is_core(f):
+            outer = []
+            for g in self.members:
+                if g.key == f.key:
+                    continue
+                for c2 in self.prog.calls_in(g):
+                    r = self.prog.resolve_call(c2.func, g.mod, g)
+                    if r and r[0] == "fn" and r[1].key == f.key:
+                        subst = {}
+                        for i, a in enumerate(c2.args):
+                            if i < len(f.posparams) and not isinstance(a, ast.Starred):
+                                subst[f.posparams[i]] = norm(a)
+                        for kw in c2.keywords:
+                            if kw.arg:
+                                subst[kw.arg] = norm(kw.value)
+                        for e, _at in forms:
+                            outer.append((g, c2, e, subst))
+            if outer:
+                alts.append(outer)
+        return alts
 
     def escapes(self) -> Dict[Tuple[str, str], List[Tuple[ast.AST, str]]]:
         """For each member: sites from which an exception other than the signal can leave the function."""
@@ -163,20 +229,43 @@ class Evaluator:
         return sorted(out, key=lambda t: (t[0].mod.name, t[1].lineno))
 
     # ------------------------------------------------------------------ whitelist of invoked builtins
+    def dispatch_guards(self, f: Func, c: ast.Call) -> Tuple[bool, List[Tuple[Func, ast.AST]]]:
+        """(guarded on every path, set expressions): membership tests `<callee name> in <SET>` known to hold where the
+        builtin callee is formed (or at every call of the helper that forms it)."""
+        from .pathcond import PathAnalysis, entails
+        best: Tuple[bool, List[Tuple[Func, ast.AST]]] = (False, [])
+        for alt in self.guard_sites(f, c, "builtin call"):
+            sets: List[Tuple[Func, ast.AST]] = []
+            ok = bool(alt)
+            for g, at, e, subst in alt:
+                subject = norm(e.args[1]) if len(e.args) > 1 else None
+                subject = subst.get(subject, subject)
+                cands = [n for n in ast.walk(g.node) if isinstance(n, ast.Compare) and len(n.ops) == 1 and isinstance(n.ops[0], ast.In)
+                         and norm(n.left) == subject]
+                pa = self._pa.setdefault(g.key, PathAnalysis(self.prog, g))
+                worlds = pa.worlds_at(at)
+                ok = ok and bool(worlds)
+                for w in worlds:
+                    hit = [n.comparators[0] for n in cands if entails(w.facts, pa.formula(n, w))]
+                    ok = ok and bool(hit)
+                    for h in hit:
+                        if not any(h is x for _, x in sets):
+                            sets.append((g, h))
+            if ok:
+                return True, sets
+            if sets and not best[1]:
+                best = (False, sets)
+        return best
+
     def builtin_guard_sets(self) -> List[Tuple[Func, ast.AST, str]]:
-        """Set expressions deciding which builtins are invoked: `X.id in <SET>` dominating getattr(builtins, ..)(..)
+        """Set expressions deciding which builtins are invoked: `X.id in <SET>` holding where getattr(builtins, ..) is formed
         and the whitelist handed to has_side_effect as precondition."""
         out = []
         for f, c, kind in self.primitive_sites():
             if kind != "builtin call":
                 continue
-            for a in ancestors(c):
-                if a is f.node:
-                    break
-                if isinstance(a, ast.If):
-                    for sub in ast.walk(a.test):
-                        if isinstance(sub, ast.Compare) and len(sub.ops) == 1 and isinstance(sub.ops[0], ast.In):
-                            out.append((f, sub.comparators[0], "dispatch guard"))
+            for g, expr in self.dispatch_guards(f, c)[1]:
+                out.append((g, expr, "dispatch guard"))
         for f in self.members:
             for c in self.prog.calls_in(f):
                 r = self.prog.resolve_call(c.func, f.mod, f)
